@@ -25,6 +25,23 @@ Definition m_greedy (bs : nat) (basis src : list Z) : Z :=
     match blocks bs basis with [] => Z.of_nat (length src)
     | _ => greedy_lit bs beq_id (S (length src)) (full_blocks bs basis) src end end.
 
+(** C19 / C18 *)
+From Copia Require Model.Path Model.Glob Model.Plan Model.Listing Model.Reconcile.
+Definition m_gm := Glob.gm.
+Definition m_glob_match := Glob.glob_match.
+Definition m_glob_match_prefix := Glob.glob_match_prefix.
+Definition m_is_excluded := Glob.is_excluded.
+Definition m_is_excluded_gm := Glob.is_excluded_with Glob.gm.
+Definition m_mm_insert := Plan.mm_insert.
+Definition m_build_plan := Plan.build_plan.
+Definition m_needs_transfer := Plan.needs_transfer.
+Definition m_parse_listing := Listing.parse_listing.
+Definition m_render_listing := Listing.render_listing.
+Definition m_reconcile_path := Reconcile.reconcile_path (list Z) deq_id.
+Definition m_table := Reconcile.table (list Z) deq_id.
+Definition m_fp_insert := @Path.al_insert (list Z) Path.path_cmp (Reconcile.fingerprint (list Z)).
+Definition m_reconcile := Reconcile.reconcile (list Z) deq_id (list Z) Path.path_cmp.
+
 Extraction "model.ml"
   rc_new rc_roll rc_push rc_digest ra rb rcount
   frc_new frc_roll frc_push frc_digest fcount
@@ -35,4 +52,6 @@ Extraction "model.ml"
   BisyncExec.bi_hist BisyncExec.bi_init BisyncExec.bi_dry
   header_encode_ck header_decode read_from write_message read_message
   encode_message encode_signature encode_delta decode_message decode_signature decode_delta
-  run_delta_top run_patch_top mt_code.
+  run_delta_top run_patch_top mt_code
+  m_gm m_glob_match m_glob_match_prefix m_is_excluded m_is_excluded_gm m_mm_insert m_build_plan m_needs_transfer
+  m_parse_listing m_render_listing m_reconcile_path m_table m_fp_insert m_reconcile.
